@@ -202,6 +202,9 @@ func TableFor(sql string) (string, error) {
 	if err != nil {
 		return "", err
 	}
+	if _, isSelect := parsed.(*sqlparser.Select); !isSelect {
+		return "", fmt.Errorf("Only SELECT statements are supported, not %T", parsed)
+	}
 	stmt := parsed.(*sqlparser.Select)
 	return strings.ToLower(nodeToString(stmt.From[0])), nil
 }
@@ -211,6 +214,9 @@ func Parse(sql string) (*Query, error) {
 	parsed, err := sqlparser.Parse(sql)
 	if err != nil {
 		return nil, fmt.Errorf("Error parsing %v: %v", sql, err)
+	}
+	if _, isSelect := parsed.(*sqlparser.Select); !isSelect {
+		return nil, fmt.Errorf("Only SELECT statements are supported, not %T: %v", parsed, sql)
 	}
 	return parse(parsed.(*sqlparser.Select))
 }
@@ -1174,6 +1180,15 @@ func goFnExprFor(e *sqlparser.FuncExpr, fname string) (goexpr.Expr, error) {
 		p2, err := paramGoExpr(e, 2)
 		if err != nil {
 			return nil, err
+		}
+		if fname == "LUA" {
+			// LUA(script, ARRAY(keys...), ARRAY(args...)) - anything else cannot be unpacked
+			if _, isArray := p1.(*goexpr.ArrayExpr); !isArray {
+				return nil, fmt.Errorf("Function LUA requires an ARRAY(...) of keys as its second parameter")
+			}
+			if _, isArray := p2.(*goexpr.ArrayExpr); !isArray {
+				return nil, fmt.Errorf("Function LUA requires an ARRAY(...) of arguments as its third parameter")
+			}
 		}
 		return tfn(p0, p1, p2), nil
 	}
